@@ -341,7 +341,11 @@ type c31DBatch struct {
 	raw   []byte
 }
 
-func c31DecodePartition(buf []byte) ([]c31DBatch, error) {
+func c31DecodePartition(buf []byte) ([]c31DBatch, error) { return c31DecodePartitionMode(buf, false) }
+
+// lenient: stop at the first undecodable record of a batch instead of failing (used only to
+// collect the oracle tables of malformed cases)
+func c31DecodePartitionMode(buf []byte, lenient bool) ([]c31DBatch, error) {
 	var out []c31DBatch
 	for len(buf) > 0 {
 		if len(buf) < 61 {
@@ -369,10 +373,16 @@ func c31DecodePartition(buf []byte) ([]c31DBatch, error) {
 		for len(payload) > 0 {
 			l, n := binary.Varint(payload)
 			if n <= 0 || l < 0 || n+int(l) > len(payload) {
+				if lenient {
+					break
+				}
 				return nil, fmt.Errorf("bad record framing")
 			}
 			var r kmsg.Record
 			if err := r.ReadFrom(payload[:n+int(l)]); err != nil {
+				if lenient {
+					break
+				}
 				return nil, err
 			}
 			if int(r.Length) != int(l) {
@@ -651,7 +661,7 @@ func c31Coq(cs c31Case, obs c31Obs, tb *c31Tables) string {
 			if pi < len(obs.in) && bytes.Equal(obs.in[pi], obs.out[pi]) {
 				continue
 			}
-			bs, err := c31DecodePartition(obs.out[pi])
+			bs, err := c31DecodePartitionMode(obs.out[pi], true)
 			if err != nil {
 				continue
 			}
@@ -1148,7 +1158,7 @@ func TestVerifC31(t *testing.T) {
 			runOne(cs)
 		}
 		r := vNewRand(vSeed())
-		n := vN(40, 400)
+		n := vN(80, 600)
 		for i := 0; i < n; i++ {
 			cs := c31Gen(r.Fork())
 			if i%3 != 0 {
@@ -1157,7 +1167,15 @@ func TestVerifC31(t *testing.T) {
 			runOne(cs)
 		}
 	}
-	rep.Cases("C31", "From KS Require Import lib.Base lib.RecVarint model.Rewrite corr.RewriteCorr.", "case", "check_case", coq, jsons)
+	// several smaller cases files: bin/check evaluates them in parallel
+	const per = 25
+	for i := 0; i < len(coq) || i == 0; i += per {
+		j := i + per
+		if j > len(coq) {
+			j = len(coq)
+		}
+		rep.Cases(fmt.Sprintf("C31p%03d", i/per), "From KS Require Import lib.Base lib.RecVarint model.Rewrite corr.RewriteCorr.", "case", "check_case", coq[i:j], jsons[i:j])
+	}
 	rep.Write()
 	if len(rep.Failures) > 0 {
 		t.Logf("oracle failures: %s", strings.TrimSpace(rep.Failures[0].What))
